@@ -92,10 +92,24 @@ impl IntoData for i64 {
     }
 }
 
+// minimal big-endian encoding of a bignum magnitude (at least one byte)
+fn big_endian_magnitude(value: u128) -> BoundedBytes {
+    let bytes = value.to_be_bytes();
+    let skip = (value.leading_zeros() as usize / 8).min(bytes.len() - 1);
+    BoundedBytes::from(bytes[skip..].to_vec())
+}
+
 impl IntoData for i128 {
     fn as_data(&self) -> PlutusData {
-        let int = Int::try_from(*self).unwrap();
-        PlutusData::BigInt(BigInt::Int(int))
+        match Int::try_from(*self) {
+            Ok(int) => PlutusData::BigInt(BigInt::Int(int)),
+            // integers beyond the 64-bit CBOR range are bignums: tag 2 carries n,
+            // tag 3 carries -1 - n
+            Err(_) if *self >= 0 => {
+                PlutusData::BigInt(BigInt::BigUInt(big_endian_magnitude(*self as u128)))
+            }
+            Err(_) => PlutusData::BigInt(BigInt::BigNInt(big_endian_magnitude(!*self as u128))),
+        }
     }
 }
 
